@@ -275,7 +275,7 @@ pub fn def() -> PropertyDef {
         assumptions: vec!["a 60 s deadline stands for non-termination (calls take microseconds)", "noise/error model DESIGN.md §4"],
         subs: vec![
             Sub::enumerate("all_pairs_small_chains_timed", exhaustive_cases, oracle),
-            Sub::prop("random_switches_timed", 40_000, 600_000, 0.3, switch_case, oracle),
+            Sub::prop("random_switches_timed", 100_000, 800_000, 0.3, switch_case, oracle),
         ],
     }
 }
